@@ -7,8 +7,8 @@ const char* RULE =
     "rapidcheck byte strings decoded into (d in 2..6; class: dense, sparse, diagonal, projector, multiple of the identity, single "
     "generator, constructed W diag(l) W^dagger with repeated eigenvalues, near-degenerate gaps 1e-3..1e-14, zero matrix, (0,2)-entry "
     "zero with the rest dense; overall magnitude 2^-100..2^100 and mixed scales inside one matrix; order true/false). Oracle (validity "
-    "predicate, many outputs are correct): every returned number finite; |M V - V diag(L)|_F <= 1e-10 |M|_F; |V^dagger V - I|_F <= "
-    "1e-10; L ascending when ordering is requested; L matches the constructed spectrum where known. M is the model matrix of the "
+    "predicate, many outputs are correct): every returned number finite; |M V - V diag(L)|_F <= 1e-12 |M|_F; |V^dagger V - I|_F <= "
+    "1e-12; L ascending when ordering is requested; L matches the constructed spectrum where known. M is the model matrix of the "
     "actual components. Non-trivial: every case (structured classes are the point); distinct by digest of consumed bytes; classes "
     "are reported per (class, d).";
 void harness_init() { quiet_gsl(); }
@@ -67,18 +67,18 @@ void run_case(ByteSource& s, CaseInfo& ci) {
   ld nM = frob(M);
   Mat D(d); for (int i = 0; i < d; i++) D.a[i][i] = cld(L[i], 0);
   ld res = frob(M * V - V * D);
-  ld tol = 1e-10L * nM + TINY;
-  CHECK(res <= tol, fmt("C12|GetEigenSystem|residual|dim=%d", d), "|MV-VL|_F=%.3Lg > 1e-10*|M|_F=%.3Lg :: %s", res, tol, ci.sample.c_str());
+  ld tol = 1e-12L * nM + TINY;  // 2M thorough cases stay below 4e-15 |M|_F: more than 200x headroom
+  CHECK(res <= tol, fmt("C12|GetEigenSystem|residual|dim=%d", d), "|MV-VL|_F=%.3Lg > 1e-12*|M|_F=%.3Lg :: %s", res, tol, ci.sample.c_str());
   ci.ratio(fmt("residual-d%d", d), (double)(res / tol));
   ld un = unitarity_defect(V);
-  CHECK(un <= 1e-10L, fmt("C12|GetEigenSystem|not-unitary|dim=%d", d), "|V^dagger V - I|_F=%.3Lg :: %s", un, ci.sample.c_str());
-  ci.ratio(fmt("unitarity-d%d", d), (double)(un / 1e-10L));
+  CHECK(un <= 1e-12L, fmt("C12|GetEigenSystem|not-unitary|dim=%d", d), "|V^dagger V - I|_F=%.3Lg :: %s", un, ci.sample.c_str());
+  ci.ratio(fmt("unitarity-d%d", d), (double)(un / 1e-12L));
   if (order) for (int i = 0; i + 1 < d; i++)
     CHECK(L[i] <= L[i + 1], fmt("C12|GetEigenSystem|not-ascending|dim=%d", d), "L[%d]=%.17Lg > L[%d]=%.17Lg :: %s", i, L[i], i + 1, L[i + 1], ci.sample.c_str());
   if (!known.empty()) {
     std::vector<ld> Ls = L; std::sort(Ls.begin(), Ls.end());
     for (int i = 0; i < d; i++)
-      CHECK(fabsl(Ls[i] - known[i]) <= 1e-10L * nM + 64 * d * EPS * nM + TINY, fmt("C12|GetEigenSystem|wrong-spectrum|dim=%d", d), "eigenvalue %d: %.17Lg vs constructed %.17Lg :: %s", i, Ls[i], known[i], ci.sample.c_str());
+      CHECK(fabsl(Ls[i] - known[i]) <= 1e-12L * nM + 64 * d * EPS * nM + TINY, fmt("C12|GetEigenSystem|wrong-spectrum|dim=%d", d), "eigenvalue %d: %.17Lg vs constructed %.17Lg :: %s", i, Ls[i], known[i], ci.sample.c_str());
   }
 }
 void enumerate(const Emit&, const std::string&) {}
